@@ -356,7 +356,7 @@ func checkC04(c *Ctx) {
 
 	// ---- C04-write-flushed: "arrives at the client" needs the frame to be flushed by the same Write (rules of C05)
 	{
-		tmp := &Ctx{P: c.P, R: report.New("tmp"), Tier: c.Tier}
+		tmp := &Ctx{P: c.P, R: report.New("tmp"), Tier: c.Tier, Sub: true}
 		checkC05(tmp)
 		for _, o := range tmp.R.Obls {
 			if o.Rule == "C05-oneframe" {
@@ -374,7 +374,7 @@ func checkC04(c *Ctx) {
 	// ---- C04-controls: "controls are exactly those the handler set": the response tree carries controls[*].Encode();
 	// what each exported control's Encode puts on the wire is the C14-encode-ref rule (imported)
 	{
-		tmp := &Ctx{P: c.P, R: report.New("tmp"), Tier: c.Tier}
+		tmp := &Ctx{P: c.P, R: report.New("tmp"), Tier: c.Tier, Sub: true}
 		checkC14(tmp)
 		for _, o := range tmp.R.Obls {
 			if o.Rule == "C14-encode-ref" {
